@@ -20,7 +20,17 @@ var (
 
 // NetConfJSON builds the JSON text the daemon keeps in PodResources.NetConf (a list of
 // rpc.NetConf rendered with encoding/json).
-func NetConfJSON(t *rapid.T) string {
+func NetConfJSON(t *rapid.T) string { return NetConfJSONFor(t, false) }
+
+// NetConfJSONFor: with loopbackENI the ENI MAC is mostly the all-zero MAC of the loopback
+// device, which is the one "physical" device every network namespace has, so that code
+// looking the ENI up by MAC finds a device.
+func NetConfJSONFor(t *rapid.T, loopbackENI bool) string {
+	macs := []string{RecENIMAC, "00:00:00:00:00:00", "", "00:16:3e:ff:ff:ff"}
+	if loopbackENI {
+		// (the netlink library reports an all-zero hardware address as empty)
+		macs = []string{"", "", "", "", RecENIMAC, "00:00:00:00:00:00"}
+	}
 	confs := []any{}
 	for i, n := 0, rapid.IntRange(0, 2).Draw(t, "nnetconf"); i < n; i++ {
 		ipset := func(label string, v4, v6 string) any {
@@ -35,21 +45,30 @@ func NetConfJSON(t *rapid.T) string {
 		}
 		nc := map[string]any{}
 		basic := map[string]any{}
-		maybe(t, basic, "PodIP", func() any {
+		often := func(m map[string]any, key string, val func() any) {
+			if loopbackENI && rapid.IntRange(0, 9).Draw(t, "keep_"+key) > 0 {
+				m[key] = val()
+				return
+			}
+			maybe(t, m, key, val)
+		}
+		often(basic, "PodIP", func() any {
 			return ipset("podip", rapid.SampledFrom(RecIPv4).Draw(t, "p4"), rapid.SampledFrom(RecIPv6).Draw(t, "p6"))
 		})
 		maybe(t, basic, "PodCIDR", func() any { return ipset("podcidr", "10.0.0.0/24", "fd00::/64") })
 		maybe(t, basic, "GatewayIP", func() any { return ipset("gw", "10.0.0.253", "fd00::fffd") })
 		maybe(t, basic, "ServiceCIDR", func() any { return ipset("svc", "172.16.0.0/16", "fd01::/108") })
-		maybe(t, nc, "BasicInfo", func() any { return basic })
-		maybe(t, nc, "ENIInfo", func() any {
-			e := map[string]any{"MAC": rapid.SampledFrom([]string{RecENIMAC, "00:00:00:00:00:00", "", "00:16:3e:ff:ff:ff"}).Draw(t, "ncmac")}
+		often(nc, "BasicInfo", func() any { return basic })
+		often(nc, "ENIInfo", func() any {
+			e := map[string]any{"MAC": rapid.SampledFrom(macs).Draw(t, "ncmac")}
 			maybe(t, e, "Trunk", func() any { return rapid.Bool().Draw(t, "nctrunk") })
 			maybe(t, e, "Vid", func() any { return rapid.IntRange(0, 4095).Draw(t, "vid") })
 			maybe(t, e, "GatewayIP", func() any { return ipset("enigw", "10.0.0.253", "fd00::fffd") })
 			return e
 		})
-		maybe(t, nc, "Pod", func() any { return map[string]any{"Ingress": 1048576, "Egress": 1048576, "NetworkPriority": "burstable"} })
+		maybe(t, nc, "Pod", func() any {
+			return map[string]any{"Ingress": 1048576, "Egress": 1048576, "NetworkPriority": "burstable"}
+		})
 		maybe(t, nc, "IfName", func() any { return rapid.SampledFrom([]string{"", "eth0", "eth1"}).Draw(t, "ncif") })
 		maybe(t, nc, "ExtraRoutes", func() any { return []any{map[string]any{"Dst": "192.168.0.0/16"}} })
 		maybe(t, nc, "DefaultRoute", func() any { return true })
